@@ -3,7 +3,7 @@ use crate::util::*;
 use darling::ast::NestedMeta;
 use serde_json::{json, Value};
 
-const L: [&str; 9] = ["\"s\"", "5", "-5", "1.5", "'c'", "b'x'", "b\"x\"", "-1.5e3", "0xff_u8"];
+const L: [&str; 13] = ["\"s\"", "5", "-5", "1.5", "'c'", "b'x'", "b\"x\"", "-1.5e3", "0xff_u8", "-1i8", "-0x10", "-1_000", "-2.5f32"];     // negative numbers keep their spelling
 const T: [&str; 2] = ["true", "false"];
 const I: [&str; 4] = ["foo", "r#type", "_x", "bar2"];
 const K: [&str; 4] = ["self", "super", "crate", "Self"];
@@ -84,8 +84,13 @@ pub fn replay_one(case: &Value, idx: usize) -> (crate::erralg::Outcome, String) 
                 if Value::Array(got.clone()) != case["expect"]["items"] {
                     prop.push(format!("`{}`: items classified as {:?}, expected {}", src, got, case["expect"]["items"]));
                 }
-                // printing then re-parsing is the identity
+                // printing then re-parsing is the identity - and what is printed is what was written
                 let printed = quote::quote!(#(#items),*);
+                let norm = |t: String| { let mut x: String = t.split_whitespace().collect(); while x.ends_with(',') { x.pop(); } x };
+                let written: proc_macro2::TokenStream = src.parse().unwrap();
+                if norm(printed.to_string()) != norm(written.to_string()) {
+                    prop.push(format!("`{}`: printed as `{}`", src, printed));
+                }
                 match NestedMeta::parse_meta_list(printed.clone()) {
                     Err(e) => prop.push(format!("`{}`: printed as `{}` which does not re-parse: {}", src, printed, e)),
                     Ok(again) => {
